@@ -10,7 +10,7 @@ def run(tier):
     c.add_tlc(r, "query histories per (feature type, random model, seed); draw counter")
     beh = list(r.behaviours)
     if not quick:
-        sim = tlc.run("Rng.tla", "Rng_sim.cfg", workers=8, timeout=900, simulate=1500, depth=32, seed=c.seed)
+        sim = tlc.run("Rng.tla", "Rng_sim.cfg", workers=8, timeout=900, simulate=40, depth=32, seed=c.seed)
         c.add_tlc(sim, "long histories (simulation)")
         beh += sim.behaviours
     beh = list(dict.fromkeys(beh))
